@@ -77,6 +77,7 @@ for mid, prop, f, old, new in M:
         names.append((l.split()[0], (m_.group(1) if m_ else l)[:230]))
     print(f"== {mid}  [{prop}] exit={r.returncode}  {len([n for n in names if n[0]=='VIOLATION'])} violation(s), {len([n for n in names if n[0]=='UNDECIDED'])} undecided")
     seen = set()
+    names = [(k, n) for k, n in names if not any(b in n for b in ("ClassicalC", "MeasurementCNOTandReset", "edge_match.verdict-does-not"))]
     for k, n in names:
         short = re.sub(r"\[[^\]]*\]", "[..]", n)
         if short in seen:
